@@ -45,11 +45,13 @@ def decryptUnicast (ip : InnerParser) (aes : Bytes → BlockFn) (k : SessionKeys
   if k.isCcmp then ccmpDecrypt ip (aes ((k.ptk.drop 32).take 16)) h pload
   else tkipDecrypt ip k.ptk h pload
 
-/-- the key `decrypt` uses for a frame: the (bssid, source) pair first, then the (bssid, destination) pair -/
+/-- the key `decrypt` uses for a frame: the (bssid, source) pair first, then the (bssid, destination) pair;
+    the other way round for from-DS frames -/
 def findKeys (keys : KeyTable) (h : Hdr) : Option SessionKeys :=
-  match lookup keys (extractAddrPair h) with
+  let fromDs := h.fromDS && !h.toDS
+  match lookup keys (if fromDs then extractAddrPairDst h else extractAddrPair h) with
   | some k => some k
-  | none => lookup keys (extractAddrPairDst h)
+  | none => lookup keys (if fromDs then extractAddrPair h else extractAddrPairDst h)
 
 /-- the last branch of `WPA2Decrypter::decrypt` (protected data frames) -/
 def wpa2DecryptData (ip : InnerParser) (aes : Bytes → BlockFn) (keys : KeyTable) (fr : Frame) : Out (Bool × Frame) :=
